@@ -200,9 +200,12 @@ const (
 	initRunning
 	initTearingDown
 	initRunningNoFin
+	// three finalizers added one by one: the stored finalizer list has spare capacity (len 3, cap 4), so an
+	// in-place append by one holder of a copy would show in every other copy (seed c04i)
+	initRunning3Fin
 )
 
-var initNames = [...]string{"absent", "running+F", "tearingdown+F", "running"}
+var initNames = [...]string{"absent", "running+F", "tearingdown+F", "running", "running+F+G+H"}
 
 func scenario(kinds []opKind, init initial, namespacedFlavour bool, bounds []int) explore.Scenario {
 	names := make([]string, len(kinds))
@@ -233,6 +236,10 @@ func scenario(kinds []opKind, init initial, namespacedFlavour bool, bounds []int
 				r := conformance.NewIntResource(hx.NS, "r", 7)
 				if init != initRunningNoFin {
 					r.Metadata().Finalizers().Add(finInit)
+				}
+				if init == initRunning3Fin {
+					r.Metadata().Finalizers().Add("G")
+					r.Metadata().Finalizers().Add("H")
 				}
 				if init == initTearingDown {
 					r.Metadata().SetPhase(resource.PhaseTearingDown)
@@ -477,7 +484,7 @@ func hasOp(ops []opKind, o opKind) bool {
 
 func build(tier string) []explore.Scenario {
 	var out []explore.Scenario
-	inits := []initial{initAbsent, initRunning, initTearingDown}
+	inits := []initial{initAbsent, initRunning, initTearingDown, initRunning3Fin}
 	// all unordered pairs
 	for a := opKind(0); a < nOps; a++ {
 		for b := a; b < nOps; b++ {
